@@ -346,6 +346,10 @@ def run(chk):
         ceff, _, cex = run_function(v, ctor[0], hooks=H())
         N, K = sym.sym("N"), sym.sym("k")
         ext = [x for x in flat(ceff) if x["e"] == "store" and sym.show(x["lv"]).endswith("extracted_lweparams.n")]
+        # members read back in the initialiser list are the values they were initialised with (declaration order)
+        inits_ = {x["lv"]: x["val"] for x in flat(ceff) if x["e"] == "store" and x.get("ctor_init") and isinstance(x.get("val"), tuple)}
+        for x in ext:
+            x["val"] = sym.subst(sym.subst(x["val"], inits_), inits_)
         chk.require(len(ext) == 1 and ext[0]["val"] == sym.mul(N, K), "R3", "extracted LWE dimension == k*N",
                     where=ctor[0].where, ok="extracted_lweparams.n = %s" % (sym.show(ext[0]["val"]) if ext else None),
                     bad="extracted_lweparams.n = %s" % (sym.show(ext[0]["val"]) if ext else None), variant=vn)
